@@ -67,6 +67,13 @@ func build(sp Spec) (program, error) {
 			pr.info = analyse(Spec{Ws: sp.Ws, Sig: sigRet1, Level: len(sp.Ws)})
 		}
 		pr.stmts = buildSpine(Spec{Ws: sp.Ws}, iterPayload(sp.A, sp.B, sp.C))
+	case "stray":
+		if sp.A < 0 || sp.A >= len(strayInner) || sp.B < 0 || sp.B >= len(strayForms) || (sp.Sig != sigBreak && sp.Sig != sigContinue) ||
+			sp.Level < 0 || sp.Level > 1 || sp.Pos < 0 || sp.Pos >= strayPositions(sp.A, sp.Level) {
+			return pr, fmt.Errorf("bad stray coordinates")
+		}
+		pr.info = sigInfo{valid: true, target: -1}
+		pr.stmts = buildSpine(Spec{Ws: sp.Ws}, strayPayload(sp))
 	default:
 		return pr, fmt.Errorf("unknown family %q", sp.Fam)
 	}
@@ -97,7 +104,7 @@ type verdict struct {
 }
 
 func hasSignal(sp Spec) bool {
-	return sp.Fam == "spine" && sp.Sig != sigNone || sp.Fam == "iter" && sp.C > 0
+	return sp.Fam == "spine" && sp.Sig != sigNone || sp.Fam == "iter" && sp.C > 0 || sp.Fam == "stray"
 }
 
 // check executes one program on the implementation and on the reference.
@@ -106,7 +113,7 @@ func check(pr program) verdict {
 	obs := irrun.Exec(pr.src, implFuel)
 	v.obs = obs
 	reached := false
-	cfg := ir.Config{MapOrder: irrun.FollowMapOrder(obs), OnSignal: func(int) { reached = true }}
+	cfg := ir.Config{MapOrder: irrun.FollowMapOrder(obs), OnSignal: func(int) { reached = true }, StraySignalIsError: pr.spec.Fam == "stray"}
 	exp := ir.Run(pr.stmts, cfg)
 	v.exp = exp
 	v.reached = reached || !hasSignal(pr.spec)
@@ -168,6 +175,12 @@ func check(pr program) verdict {
 		v.class = kind + "/truthiness/" + truthForms[sp.A] + "/" + truthVals[sp.B].name
 	case "leaf":
 		v.class = kind + "/leaf/" + leafForms[sp.A]
+	case "stray":
+		inner := strayInner[sp.A]
+		if inner == "" {
+			inner = "body"
+		}
+		v.class = "stray-signal/" + kind + "/" + sigNames[sp.Sig] + "/caller:" + pathName(sp) + "/in:" + inner + "/" + strayForms[sp.B]
 	case "iter":
 		sig := "none"
 		if sp.C > 0 {
@@ -297,6 +310,39 @@ func jobs(c *common.Ctx) []job {
 			}})
 		}
 	}
+	// stray break / continue in a called function: the call sits at the top
+	// level, in the body of every loop form, and (thorough) in every
+	// construct inside every loop form
+	var strayCtx [][]int
+	strayCtx = append(strayCtx, []int{})
+	for w, wr := range wrappers {
+		if wr.loop {
+			strayCtx = append(strayCtx, []int{w})
+			if c.Thorough() {
+				for w2 := range wrappers {
+					strayCtx = append(strayCtx, []int{w, w2})
+				}
+			}
+		}
+	}
+	for _, ws := range strayCtx {
+		ws := ws
+		js = append(js, job{func() []Spec {
+			var specs []Spec
+			for a := range strayInner {
+				for _, sig := range []int{sigBreak, sigContinue} {
+					for lvl := 0; lvl <= 1; lvl++ {
+						for pos := 0; pos < strayPositions(a, lvl); pos++ {
+							for b := range strayForms {
+								specs = append(specs, Spec{Fam: "stray", Ws: ws, A: a, B: b, Sig: sig, Level: lvl, Pos: pos})
+							}
+						}
+					}
+				}
+			}
+			return specs
+		}})
+	}
 	for d := 0; d <= 1; d++ {
 		for _, ws := range tuples(d) {
 			ws := ws
@@ -404,6 +450,7 @@ func coverage(c *common.Ctx, r *common.Result) map[string]interface{} {
 		"evaluations_truthiness":    r.Counts["evaluations_truth"],
 		"evaluations_leaf":          r.Counts["evaluations_leaf"],
 		"evaluations_iteration":     r.Counts["evaluations_iter"],
+		"evaluations_stray":         r.Counts["evaluations_stray"],
 		"duplicate_sources_skipped": r.Counts["duplicate_sources"],
 		"max_depth":                 r.GetMax("depth"),
 		"distinct_outcomes":         r.SetSize("outcomes"),
@@ -411,7 +458,7 @@ func coverage(c *common.Ctx, r *common.Result) map[string]interface{} {
 		"outside_compared_reasons":  r.SetMembers("outside_reasons"),
 		"wrappers":                  len(wrappers),
 		"explanation": "spines p;W1[p;W2[p;W3[p];p];p];p over 26 construct positions (if/else-if/else, switch cases incl. multi-expression and default, six loop forms incl. C-style with a probing post expression, for-in over slice/map/closed channel, three function forms, try body/catch/finally, module) with one break/continue/return(0,1,2 values) at every statement position of every level; " +
-			"plus the truthiness family (19 values x 10 condition positions), the nothing-runs family and the iteration-count family; expected trace/result from lib/ir refinterp (strict reading), map loops follow the order the implementation took and must visit every key once",
+			"plus the truthiness family (19 values x 10 condition positions), the nothing-runs family, the iteration-count family and the stray family (break/continue outside any loop of a called function, called directly and one call deeper from the top level and from every loop form: the call must fail, the caller's loop must not be addressed); expected trace/result from lib/ir refinterp (strict reading), map loops follow the order the implementation took and must visit every key once",
 	}
 }
 
@@ -465,7 +512,7 @@ func init() {
 		ID: "C08", Level: "exploration", Run: run, Coverage: coverage, Replay: replay,
 		Assumptions: []string{
 			"programs are spines over the 26 construct positions listed in props/c08/gen.go, nested to depth 2 (quick) / 3 (thorough), with at most one break/continue/return under test; loops run two iterations (0-3 in the iteration family)",
-			"break/continue outside any loop of the current function invocation are not generated (the property does not say what they do); a top-level return is generated and must end the script with its value",
+			"break/continue outside any loop at the TOP LEVEL are not generated (the property does not say what they do); inside a called function they must make the call fail and must not address a loop of the caller (family stray; error-vs-success only); a top-level return is generated and must end the script with its value",
 			"result values are compared only when produced by return or by the final expression statement; error messages are never compared",
 			"conditions are evaluated once per test (the stateful host function t(id,[...]) supplies loop conditions); strings other than \"\" and plain text are not used as conditions",
 			"signals that cross a try body are enumerated completely up to depth 2 and over a reduced alphabet at depth 3 (they are a known finding with an explicit case list)",
